@@ -11,6 +11,11 @@ from ..env import NS
 HEX = string.hexdigits
 
 
+def dsl_is_lib_exc(e):
+    from .. import dsl
+    return dsl.is_lib_exc(e)
+
+
 def _mk(expr):
     return eval(expr, NS)
 
@@ -113,8 +118,17 @@ def language_check(pid, expr, ref_start, ref_step, ref_accept, extra_points, tru
         real = bool(cre.fullmatch(acc_str))
         if real != a_nfa:
             raise common.Internal(f'regex->NFA translation wrong on {acc_str!r} for {expr}: re says {real}, NFA says {a_nfa}')
-        if real != p.is_exact_match(acc_str):
-            raise common.Internal(f'is_exact_match disagrees with re.fullmatch on {acc_str!r}')
+        try:
+            lib = p.is_exact_match(acc_str)
+        except Exception as e:  # noqa: BLE001
+            lib = 'raised ' + type(e).__name__
+        if real != lib:
+            # the library's own exact-match verdict is what the property is about
+            if lib != a_ref:
+                viol.append(V(f'{pid}|{expr}|language|{acc_str}',
+                              f"{expr}.is_exact_match({acc_str!r}) is {lib}, the standard says {a_ref} (re.fullmatch on the emitted pattern: {real})",
+                              f"p = {expr}\nassert p.is_exact_match({acc_str!r}) == {a_ref}"))
+                continue
         validated += 1
         if truth is not None and (truth_alphabet is None or all(ch in truth_alphabet for ch in acc_str)):
             tv = truth(acc_str)
@@ -532,6 +546,19 @@ def run_C17(run):
         if got not in exc.split('|'):
             run.add([V(f'C17|{expr}|invalid', f"{expr} -> {got}, expected {exc}",
                        f"try:\n    {expr}\nexcept ({exc.replace('|', ', ')}):\n    pass\nelse:\n    raise AssertionError")])
+    # the same arguments in other legal forms: instances of int / str subclasses (what enum.IntEnum members are), keyword spellings
+    from .numeric import _same_value_forms
+    pairs = []
+    for ext in (False, True):
+        pairs += [(f"Numeral(IntSub(8), 1, 2, {ext})", f"Numeral(8, 1, 2, {ext})"), (f"Numeral(8, IntSub(1), 2, {ext})", f"Numeral(8, 1, 2, {ext})"),
+                  (f"Numeral(8, 1, IntSub(2), {ext})", f"Numeral(8, 1, 2, {ext})"), (f"Numeral(base=16, n_min=2, n_max=2, is_extensible={ext})", f"Numeral(16, 2, 2, {ext})"),
+                  (f"Numeral(n_max=IntSub(3), base=IntSub(11), is_extensible={ext})", f"Numeral(11, 1, 3, {ext})"),
+                  (f"Word(IntSub(2), 3, is_extensible={ext})", f"Word(2, 3, is_extensible={ext})"), (f"Word(2, IntSub(3), is_extensible={ext})", f"Word(2, 3, is_extensible={ext})"),
+                  (f"Word(max_chars=3, min_chars=2, is_extensible={ext})", f"Word(2, 3, is_extensible={ext})"),
+                  (f"WordContains(StrSub('a.b'), is_extensible={ext})", f"WordContains('a.b', is_extensible={ext})"),
+                  (f"WordStartsWith([StrSub('ab'), 'c'], is_extensible={ext})", f"WordStartsWith(['ab', 'c'], is_extensible={ext})"),
+                  (f"WordEndsWith(StrSub('ab'), is_extensible={ext})", f"WordEndsWith('ab', is_extensible={ext})")]
+    _same_value_forms(run, 'C17', pairs)
     run.merge_counts(tot)
     run.count('invalid_parameter_calls', n_inv)
     run.sample({'pattern': 'Numeral(13, 1, 3)', 'alphabet': ['0', 'c', 'C', 'd', 'g', '_'], 'candidates': 'all strings of length <= 5'})
@@ -630,8 +657,13 @@ def _task19(arg):
                         viol.append(V(f'C19|{expr}|{t}', f"{expr}.is_exact_match({t!r}) is {got}, expected {want}",
                                       f"p = {expr}\nassert p.is_exact_match({t!r}) == {want}"))
             for t in ('01/02/2021', '1-2-21', '2021-12-31', '31/12/99', ''):
-                if p.is_exact_match(t) != (cre.fullmatch(t) is not None):
-                    raise common.Internal('is_exact_match disagrees with fullmatch')
+                try:
+                    lib = p.is_exact_match(t)
+                except Exception as e:  # noqa: BLE001
+                    lib = 'raised ' + type(e).__name__
+                if lib != (cre.fullmatch(t) is not None):
+                    viol.append(V(f'C19|{expr}|exact|{t}', f"{expr}.is_exact_match({t!r}) is {lib} but re.fullmatch on the emitted pattern says {cre.fullmatch(t) is not None}",
+                                  f"import re\np = {expr}\nassert p.is_exact_match({t!r}) == (re.fullmatch(str(p), {t!r}, 24) is not None)"))
     return viol, cnt
 
 
@@ -718,6 +750,42 @@ def run_C19(run):
             want = any(date_model(g, a, s1, b, s2, c) for g in fmts)
             if (cre.fullmatch(t) is not None) != want:
                 run.add([V(f'C19|Date()|{t}', f"Date().is_exact_match({t!r}) is {not want}", f"assert Date().is_exact_match({t!r}) == {want}")])
+    # argument forms: the empty selection, duplicates, the order of the list, the full list, and other iterables of documented formats
+    n_forms = 0
+    cands = [a + s1 + b + s2 + c for f in fmts[::5] for (a, s1, b, s2, c) in near(f)]
+    for ext in (False, True):
+        for label, expr, want_fmts in (
+                ('empty', f"Date([], is_extensible={ext})", []),
+                ('duplicate', f"Date(['dd/mm/yyyy', 'd-m-yy', 'dd/mm/yyyy'], is_extensible={ext})", ['dd/mm/yyyy', 'd-m-yy']),
+                ('reversed', f"Date(['yyyy-mm-dd', 'd/m/yy', 'mm/dd/yyyy'][::-1], is_extensible={ext})", ['yyyy-mm-dd', 'd/m/yy', 'mm/dd/yyyy']),
+                ('all-as-list', f"Date({fmts!r}, is_extensible={ext})", fmts),
+                ('all-reversed', f"Date({fmts[::-1]!r}, is_extensible={ext})", fmts),
+                ('triple', f"Date(['d/m/yyyy', 'd/m/yy', 'dd/mm/yyyy'], is_extensible={ext})", ['d/m/yyyy', 'd/m/yy', 'dd/mm/yyyy']),
+                ('tuple', f"Date(('dd/mm/yyyy', 'd-m-yy'), is_extensible={ext})", ['dd/mm/yyyy', 'd-m-yy']),
+                ('generator', f"Date((f for f in ['dd/mm/yyyy', 'd-m-yy']), is_extensible={ext})", ['dd/mm/yyyy', 'd-m-yy']),
+                ('iterator', f"Date(iter(['yyyy/m/d']), is_extensible={ext})", ['yyyy/m/d']),
+                ('set', f"Date({{'dd/mm/yyyy', 'd-m-yy'}}, is_extensible={ext})", ['dd/mm/yyyy', 'd-m-yy'])):
+            try:
+                pf = _mk(expr)
+            except Exception as e:  # noqa: BLE001
+                if label in ('tuple', 'generator', 'iterator', 'set') and dsl_is_lib_exc(e):
+                    continue      # iterables other than a list are neither documented nor forbidden: refusing them is fine
+                run.add([V(f'C19|{label}|{ext}|raised', f"{expr[:80]} raised {type(e).__name__}: {e}", f"r = {expr}")])
+                continue
+            nbad = 0
+            for t in cands:
+                n_forms += 1
+                parts = re.split('([-/])', t)
+                want = len(parts) == 5 and any(date_model(g, *parts) for g in want_fmts)
+                try:
+                    got = pf.is_exact_match(t)
+                except Exception as e:  # noqa: BLE001
+                    got = 'raised ' + type(e).__name__
+                if got != want and nbad < 2:
+                    nbad += 1
+                    run.add([V(f'C19|{label}|{ext}|{t}', f"{expr[:90]}: is_exact_match({t!r}) is {got}, expected {want} (selected formats: {want_fmts[:4]}{'...' if len(want_fmts) > 4 else ''})",
+                               f"p = {expr}\nassert p.is_exact_match({t!r}) == {want}")])
+    run.count('argument_form_candidates', n_forms)
     n_inv = 0
     for bad in ("'dd.mm.yyyy'", "''", "'DD/MM/YYYY'", "'Dd/mm/yyyy'", "'mm/yyyy/dd'", "'dd/mm/yyy'", "'d/m/y'", "'dd/mm-yyyy'", "'dd/mm/yyyy '",
                 "['dd/mm/yyyy', 'x']", "[5]", "['dd/mm/yyyy', None]", "5", "('dd/mm/yyyy',)", "['DD-MM-YY']", "'yyyy/dd/mm'", "'dd mm yyyy'"):
